@@ -599,6 +599,21 @@ func (x *exec) step(i int, s Step) bool {
 				x.foreign = true
 			}
 			b = nb
+			if s.NoSty > 0 {
+				sb, onPicture, schanged, err := dropStyles(b, s.NoSty)
+				if err != nil {
+					res.Count("renumber-not-applicable", 1)
+					return true
+				}
+				if schanged > 0 {
+					res.Label("foreign-package-without-styles-part")
+					if onPicture {
+						res.Label("foreign-package-without-styles-part:its-usual-id-is-a-picture's")
+					}
+					x.foreign = true
+				}
+				b = sb
+			}
 			if s.Med != medKeep {
 				mb, mchanged, err := remedia(b, ops.In(s.Med, nMedSchemes), s.MedK)
 				if err != nil {
@@ -781,7 +796,7 @@ func isASCII(s string) bool {
 func TestC10(t *testing.T) {
 	kit.Main(t, kit.Spec[Case]{
 		ID: "C10", Level: "exploration",
-		Rule: "history of 3-22 (thorough 3-40) calls: AddImageFromData / AddImageFromFile (png, jpeg, gif payloads 1-64 px made by the standard encoders, traceable by sha256; file-name classes incl. equal names for different payloads, non-ASCII, no extension, misleading extension), AddCellImage / ...FromData / ...FromFile, template paragraphs with {{#image x}} placeholders in the body and in table cells (alone, with text around, several per paragraph, in consecutive paragraphs) rendered through LoadTemplateFromDocument + RenderTemplateToDocument with SetImage / SetImageFromData / SetImageWithDetails, optionally (half of the cases) with sources that outlive one use - one TemplateEngine for all renders of the case (newly loaded documents and the loaded template rendered again), one TemplateData whose entries partly stay from render to render, and up to three file paths whose image the harness replaces (other bytes, format, pixel size) before each AddImageFromFile / AddCellImage(FilePath) / AddCellImageFromFile / SetImage that names them -, interleaved with headers, footers, list items, saves, save->OpenFromMemory/Open cycles and reopening of a copy of the package whose relationship ids were renumbered by the harness (5 schemes); size configs nil / none / an ImageSize without dimensions / WxH / one dimension with KeepAspectRatio / one dimension without, 0.1-500 mm. Widened: ResizeImage and the other setters that take the ImageInfo an addition of the current document object returned; AddImageFromDataWithoutElement; additions that cannot succeed (missing / empty / non-image file, cell out of range, config without source); *ImageConfig objects reused for several pictures (a third of the cases); a second document the history alternates with; the same bytes twice, payloads with bytes after the end-of-image marker, now and then 65-200 px (media parts > 64 KiB); names the library itself generates, names differing only in case; bursts of 8-13 (rarely 31-36, thorough up to 70) additions followed by reopen and more additions; renders through a TemplateRenderer (Save + LoadTemplateFromFile + RenderTemplate), TemplateData.Merge / Clear; reopen through Save + Open; foreign media part names (absolute targets, leading zeros, numbers shifted past 9/99/999, other names, upper-case extension, zip directory entries) next to the foreign relationship ids. Reference model = ordered list of pictures by position {payload hash, pixel size, size config} (for a path: hash and pixel size of the bytes that are at the path when the creating call reads it); every saved package is read with the harness's own zip/OPC/XML readers. non-trivial = >=3 pictures of >=2 formats with >=1 reopen or >=1 cell/template picture; distinct = distinct sequence of (step kind, format, size mode, placeholders per paragraph, render outcome)",
+		Rule: "history of 3-22 (thorough 3-40) calls: AddImageFromData / AddImageFromFile (png, jpeg, gif payloads 1-64 px made by the standard encoders, traceable by sha256; file-name classes incl. equal names for different payloads, non-ASCII, no extension, misleading extension), AddCellImage / ...FromData / ...FromFile, template paragraphs with {{#image x}} placeholders in the body and in table cells (alone, with text around, several per paragraph, in consecutive paragraphs) rendered through LoadTemplateFromDocument + RenderTemplateToDocument with SetImage / SetImageFromData / SetImageWithDetails, optionally (half of the cases) with sources that outlive one use - one TemplateEngine for all renders of the case (newly loaded documents and the loaded template rendered again), one TemplateData whose entries partly stay from render to render, and up to three file paths whose image the harness replaces (other bytes, format, pixel size) before each AddImageFromFile / AddCellImage(FilePath) / AddCellImageFromFile / SetImage that names them -, interleaved with headers, footers, list items, saves, save->OpenFromMemory/Open cycles and reopening of a copy of the package whose relationship ids were renumbered by the harness (5 schemes); size configs nil / none / an ImageSize without dimensions / WxH / one dimension with KeepAspectRatio / one dimension without, 0.1-500 mm. Widened: ResizeImage and the other setters that take the ImageInfo an addition of the current document object returned; AddImageFromDataWithoutElement; additions that cannot succeed (missing / empty / non-image file, cell out of range, config without source); *ImageConfig objects reused for several pictures (a third of the cases); a second document the history alternates with; the same bytes twice, payloads with bytes after the end-of-image marker, now and then 65-200 px (media parts > 64 KiB); names the library itself generates, names differing only in case; bursts of 8-13 (rarely 31-36, thorough up to 70) additions followed by reopen and more additions; renders through a TemplateRenderer (Save + LoadTemplateFromFile + RenderTemplate), TemplateData.Merge / Clear; reopen through Save + Open; foreign media part names (absolute targets, leading zeros, numbers shifted past 9/99/999, other names, upper-case extension, zip directory entries) next to the foreign relationship ids; foreign packages without a styles part (a third of the renumbered ones), where the id the library gives the styles relationship is unused or is the id of a picture / header / numbering relationship. Reference model = ordered list of pictures by position {payload hash, pixel size, size config} (for a path: hash and pixel size of the bytes that are at the path when the creating call reads it); every saved package is read with the harness's own zip/OPC/XML readers. non-trivial = >=3 pictures of >=2 formats with >=1 reopen or >=1 cell/template picture; distinct = distinct sequence of (step kind, format, size mode, placeholders per paragraph, render outcome)",
 		Gen:  genCase, Run: run, Findings: findings, Fixed: fixedCases,
 		// every case works in a scratch directory of its own (image files, saved packages); on a heavily loaded machine creating and
 		// removing it has been seen to stall for many seconds, so the watchdog for a hanging case is wider than the default 20 s
@@ -796,12 +811,13 @@ func TestC10(t *testing.T) {
 			"resize": 0.05, "setter-after-insertion": 0.02, "two-documents-both-with-pictures": 0.05, "config-object-reused-other-aspect-ratio": 0.08,
 			"failed-addition-then-more": 0.03, "media-part-without-picture": 0.02, "pictures>10": 0.1, "foreign-media-names": 0.04,
 			"render-through-TemplateRenderer": 0.05, "templatedata-merged": 0.03, "payload-with-trailing-bytes": 0.1, "payloads-prefix-of-one-another": 0.05,
-			"same-payload-under-two-names": 0.08, "name-the-library-generates": 0.2, "names-differ-only-in-case": 0.04, "size:empty": 0.1, "pixel-size>64": 0.03},
+			"same-payload-under-two-names": 0.08, "name-the-library-generates": 0.2, "names-differ-only-in-case": 0.04, "size:empty": 0.1, "pixel-size>64": 0.03,
+			"foreign-package-without-styles-part": 0.03, "foreign-package-without-styles-part:its-usual-id-is-a-picture's": 0.02},
 		Assumptions: []string{
 			"1 mm = 36000 EMU and 1 px at 96 dpi = 9525 EMU; the documentation leaves rounding open, so a given dimension may be off by 1 EMU and a derived one by 1 EMU plus the pixel ratio",
 			"one dimension without KeepAspectRatio: the statement gives no rule, the extent is not judged (counted as extent-not-judged); wp:extent = a:ext is still demanded",
 			"where a picture lands relative to other body elements is C08's subject; only the order among pictures is compared (for template pictures: placeholder order of the base document)",
-			"renumbered packages keep the styles relationship at rId1 (foreign numbering of that relationship is C02/C04's subject); the rewritten package is checked against the same oracle before it is opened",
+			"renumbered packages keep the styles relationship at the id it has (foreign numbering of that relationship is C02/C04's subject) or have no styles part at all (it is optional; then its usual id rId1 may be any other relationship's, a picture's included); the rewritten package is checked against the same oracle before it is opened",
 			"an r:embed that is the id of several relationships counts as resolved only if all of them lead to the picture's own bytes",
 			"template texts around placeholders contain no other template syntax; placeholders use names of [A-Za-z0-9_]+",
 			"a file path is a reference: the picture shows the bytes that are at the path when the call that creates the picture reads it - AddImageFromFile / AddCellImage / AddCellImageFromFile: that call; TemplateData.SetImage (no error result, cannot read): the render. The harness replaces a file only between such calls, never during one",
